@@ -129,7 +129,7 @@ _HEX = re.compile(r"[0-9a-f]*\Z")
 
 
 def twin_is_hex(s, n: int | None = None) -> bool:
-    return isinstance(s, str) and len(s) > 0 and (n is None or len(s) == n) and bool(_HEX.match(s))
+    return isinstance(s, str) and len(s) > 0 and len(s) % 2 == 0 and (n is None or len(s) == n) and bool(_HEX.match(s))
 
 
 def twin_is_hex_key(s) -> bool:
@@ -147,7 +147,7 @@ def twin_is_fingerprint(s) -> bool:
 def twin_is_gpg_entry(v) -> bool:
     return (isinstance(v, dict) and set(v) in ({"other_headers", "signature"}, {"other_headers", "signature", "see_also"})
             and all(isinstance(k, str) for k in v)
-            and twin_is_hex(v["other_headers"]) and len(v["other_headers"]) % 2 == 0
+            and twin_is_hex(v["other_headers"])
             and twin_is_hex_sig(v["signature"])
             and ("see_also" not in v or twin_is_fingerprint(v["see_also"])))
 
